@@ -166,7 +166,9 @@ def model_check(ctx: Ctx, which):
 
 # ------------------------------------------------------------------------- full size: RFC 6979 call structure
 class _HmacRecorder:
-    """Stands in for the `hmac` module global of the private secp256k1 copy; real HMAC, recorded."""
+    """Stands in for the `hmac` module global of the private secp256k1 copy; real HMAC, every digest recorded
+    with the key and the COMPLETE message it covers (new / update / copy are supported, so an implementation
+    may feed the message in pieces)."""
 
     def __init__(self):
         self.calls = []
@@ -175,12 +177,21 @@ class _HmacRecorder:
         rec = self
 
         class _H:
+            def __init__(self_inner, buf):
+                self_inner.buf = bytes(buf)
+
+            def update(self_inner, data):
+                self_inner.buf += bytes(data)
+
+            def copy(self_inner):
+                return _H(self_inner.buf)
+
             def digest(self_inner):
-                out = _hmac.new(key, msg, digestmod).digest()
+                out = _hmac.new(bytes(key), self_inner.buf, digestmod).digest()
                 name = getattr(digestmod, "__name__", str(digestmod)).replace("openssl_", "")
-                rec.calls.append({"key": list(key), "msg": list(msg), "out": list(out), "alg": name})
+                rec.calls.append({"key": list(key), "msg": list(self_inner.buf), "out": list(out), "alg": name})
                 return out
-        return _H()
+        return _H(msg or b"")
 
 
 def rfc6979_rows(ctx: Ctx):
@@ -202,14 +213,18 @@ def rfc6979_rows(ctx: Ctx):
         priv = d.to_bytes(32, "big")
         for h in hashes:
             rec.calls = []
-            k = m.deterministic_generate_k(h, priv)
-            calls = rec.calls
-            rec.calls = []
-            k2 = m.deterministic_generate_k(h, priv)
-            rows.append({"h": list(h), "x": list(priv), "calls": calls,
-                         "k": list(k.to_bytes(32, "big")) if 0 <= k < 2 ** 256 else [],
-                         "det": 1 if k == k2 else 0})
-            sigs.append((d, h, k))
+            try:
+                k = m.deterministic_generate_k(h, priv)
+                calls = rec.calls
+                rec.calls = []
+                k2 = m.deterministic_generate_k(h, priv)
+                rows.append({"h": list(h), "x": list(priv), "calls": calls,
+                             "k": list(k.to_bytes(32, "big")) if 0 <= k < 2 ** 256 else [],
+                             "det": 1 if k == k2 else 0})
+                sigs.append((d, h, k))
+            except Exception as e:  # noqa: BLE001
+                rows.append({"h": list(h), "x": list(priv), "calls": [], "k": [], "det": 0,
+                             "exc": f"EXC:{type(e).__name__}:{e}"[:120]})
     return m, rows, sigs
 
 
